@@ -146,6 +146,10 @@ func (e *binaryExpr) Get(b []byte) (float64, bool, []byte) {
 	if !leftWasSet && !rightWasSet {
 		return 0, false, remain
 	}
+	if !e.IsConstant() && (!leftWasSet || e.Left.IsConstant()) && (!rightWasSet || e.Right.IsConstant()) {
+		// only constant operands are set: there is no data behind this value
+		return 0, false, remain
+	}
 	return e.calc(valueLeft, valueRight), true, remain
 }
 
